@@ -521,6 +521,21 @@ def run(ck, tier):
                     ck.ob('R8', fn.qn, 'packs the argument itself', U(t.args[1]) == val, detail='packed-value-not-the-argument', loc=cx.floc(fn, e.node),
                           message='add_%s packs `%s` instead of the value it was given: the decoder cannot give back what the caller added' % (name, U(t.args[1])[:60]))
     ck.floor('R8', n8, 8, 'pack calls of the numeric adders')
+    # text handed to add_string() goes through make_byte_string(): its encoding is the one decode_string() callers undo with .decode()
+    ck.rule('R9', 'make_byte_string() encodes text with the default (UTF-8) codec, the one bytes.decode() undoes')
+    mb = cx.idx.mod('pymodbus.utilities').funcs.get('make_byte_string')
+    n9 = 0
+    if mb is not None:
+        ck.saw('functions', mb.qn)
+        for c_ in ast.walk(mb.node):
+            if isinstance(c_, ast.Call) and isinstance(c_.func, ast.Attribute) and c_.func.attr == 'encode':
+                n9 += 1
+                codec = c_.args[0] if c_.args else next((k.value for k in c_.keywords if k.arg == 'encoding'), None)
+                cv = cx.ce.try_ev(codec, mb.mod, None, default='?') if codec is not None else 'utf-8'
+                ck.ob('R9', mb.qn, 'text is encoded as UTF-8', isinstance(cv, str) and cv.lower().replace('_', '-') in ('utf-8', 'utf8'), detail='text-codec %s' % cv, loc=cx.floc(mb, c_),
+                      message='make_byte_string encodes text with %r: a string field added with add_string() has another length and other bytes than the UTF-8 text the decoder side '
+                              'expects, and every field behind it is read from a shifted offset' % cv)
+    ck.floor('R9', n9, 1, 'encode calls of make_byte_string')
     ck.assume('value-level round trips (signs, NaN, subnormals) rest on struct, which is trusted')
     from .. import ownership as _own
     ck.guard(_own.rule_instance_owned, ck, cx, 'R5', _own.PAYLOAD, 'values added to one builder appear in the payload of another', 1)
